@@ -75,7 +75,7 @@ def h_fold(vm, mir, root_variant, depth, forces=()):
         pv = Adt('ProduceVal', 0, [Ref(Cell(env))])
         try:
             ev = vm.run_fn([x for x in mir.by_name['visit_expression'] if x.name == 'VisitExpr::visit_expression'][0], [R(pv), R(adt)], {'Self': 'ProduceVal<I, O>', 'I': 'I', 'O': 'O'})
-        except Unmodelled as e:
+        except (Unmodelled, AttributeError, TypeError) as e:
             if 'environment' in str(e) or 'Opaque' in str(e): ev = None; bad('folded-tree-reads-environment', f'a folded expression reads the environment when evaluated ({e})')
             else: raise
         if ev is not None:
